@@ -42,4 +42,17 @@ theorem generated_bodies_inverse (t : String) (U : List CStep) (vals : List Val)
 /-- nothing in the generated table is outside the algebra -/
 theorem all_covered : Gen.unpackCodecs.all (fun p => GoodPlan p.2) = true ∧ Gen.unpackCodecs.length = 81 := by decide
 
+/-- **no collisions**: two lists of fitting field values of a covered record type that pack to the same RDATA are the
+    same values — what the packer writes determines every field -/
+theorem pack_injective (U : List CStep) (v1 v2 : List Val) (hg : GoodPlan U = true) (h1 : WFPlan [] U v1)
+    (h2 : WFPlan [] U v2) (h : packPlan (stripPlan U) v1 = packPlan (stripPlan U) v2) : v1 = v2 := by
+  obtain ⟨w1, p1, u1⟩ := plan_roundtrip [] U v1 hg h1
+  obtain ⟨w2, p2, u2⟩ := plan_roundtrip [] U v2 hg h2
+  unfold packPlan at h
+  rw [p1, p2] at h
+  have hw : w1 = w2 := Option.some.inj h
+  subst hw
+  rw [u1] at u2
+  simpa using u2
+
 end Dns.Instance
